@@ -28,10 +28,8 @@ def u64? (s : String) : Option Nat :=
 
 def hex2 (n : Nat) : String := String.ofList [hexDigit (n / 16 % 16), hexDigit (n % 16)]
 
-def errStr : NumErr → String
-  | .ok => "ok" | .small => "too small" | .large => "too large" | .invalid => "invalid"
-def errnoStr : NumErr → String
-  | .ok => "keep" | .small => "ERANGE" | .large => "ERANGE" | .invalid => "EINVAL"
+def errStr (e : NumErr) : String := e.errstr.getD "ok"
+def errnoStr (e : NumErr) : String := e.errno.getD "keep"
 
 def fillAA (n : Nat) : Bytes := List.replicate n 0xAA
 
